@@ -277,6 +277,12 @@ def c044(ctx):
             ok = e is not None and e[1] is not None and all(f.edge_dom(e[0], e[1], b) for b in oks)
             ctx.ob('C04.4', f, 'answer-only-after-validation', ok, '%s: every Ok answer is %s' % (what, 'reachable only through the Ok edge of the validator' if ok else 'reachable WITHOUT a successful validation'), line=v.line)
     tr = P.fn('ripd::continuity_stream_cache::ContinuityStreamCache::try_replay')
+    # the per-line validation extracted into a private helper of the module is spliced back in (with its
+    # error returns routed to the caller's `?`), so "accepted only on the equal edge" keeps its meaning
+    from ..inline import inline_calls, contains
+    _w4 = contains(rx_calls=r'rip_kernel::Event::stream_(kind|id)$')
+    tr = inline_calls(P, tr, lambda body, callee: callee.startswith('ripd::continuity_stream_cache::') and not re.search(r'::(scan_sidecar_backwards\w*|drain_sidecar_lines|ensure_seq_index_v1|append_best_effort|rebuild_\w+|try_replay)$', callee)
+                      and _w4(body, callee), depth=1, note=ctx.note)
     ctx.touch(tr)
     pushes = tr.calls(r'alloc::vec::Vec::push$', full=r'Vec::<rip_kernel::Event>::push')
     if not pushes:
@@ -288,12 +294,17 @@ def c044(ctx):
         if o[0] == 'rv' and o[1]['k'] == 'bin' and o[1]['op'] in ('Ne', 'Eq'):
             names = []
             locs = []
+            counter = False
             for a in o[1]['a']:
                 src = tr.origin(a)
                 if src[0] == 'local':
                     names += [pp.get('n') for pp in src[2] if isinstance(pp, dict) and 'f' in pp]
                     locs.append(tr.lname(src[1]))
-            if 'seq' in names and 'expected_seq' in locs:
+                    # the expected seq: a u64 local of the loop that is advanced by an addition (by name while it keeps it)
+                    if not src[2] and tr.lty(src[1]) == 'u64' and any(d_[2] == 'rv' and (d_[3]['k'] == 'bin' and d_[3]['op'].startswith('Add') or d_[3]['k'] == 'use' and any(
+                            x[0] == 'bin' and x[1].startswith('Add') for x in sources(tr, d_[3]['a'][0]))) for d_ in tr.defs(src[1])):
+                        counter = True
+            if 'seq' in names and ('expected_seq' in locs or counter):
                 seq_edges.append((bi, ts.get('0') if o[1]['op'] == 'Ne' else els))
         if o[0] == 'call' and re.search(r'PartialEq(::|.*>::)(ne|eq)$', o[1].callee):
             srcs = set()
